@@ -4,6 +4,7 @@ import (
 	"encoding/binary"
 	"fmt"
 	"sync"
+	"sync/atomic"
 	"time"
 
 	"github.com/cuteLittleDevil/go-jt808/service"
@@ -28,6 +29,7 @@ func c12Steady(c *core.Collector, x *Ctx) {
 		return
 	}
 	var wg sync.WaitGroup
+	var anySlow atomic.Bool
 	for ti := 0; ti < 2; ti++ {
 		wg.Add(1)
 		go func(ti int) {
@@ -188,10 +190,13 @@ func c12Steady(c *core.Collector, x *Ctx) {
 					fmt.Sprintf("terminal %s: %d sent, %d answered", t.Phone, sent, len(hbAnswered)), wit)
 			}
 			if slow {
+				anySlow.Store(true)
 				c.Inconclusive()
 			}
 		}(ti)
 	}
 	wg.Wait()
-	c.Floor("steady_commands_matched", 6)
+	if !anySlow.Load() {
+		c.Floor("steady_commands_matched", 6)
+	}
 }
